@@ -4,6 +4,8 @@ import Proofs.C08Inv
 import Proofs.C08Step
 import Proofs.C08Seq
 import Proofs.C08Exhaust
+import Proofs.C08SeqSpec
+import Proofs.C08Any
 /-!
 # C08 — stream ids are unique while in use, never 0 or out of range, and all get used
 
@@ -90,13 +92,6 @@ theorem C08_unique (n k : Nat) (hn : 0 < n) (s : State) (h : Reachable n k s) :
         rw [← h1]; simp only [h2]
     · cases hs
 
-def isG7 : PC → Bool
-  | .g7 _ => true
-  | _ => false
-def isC11 : PC → Bool
-  | .c11 _ => true
-  | _ => false
-
 theorem countP_split (l : List PC) :
     l.countP isOwner + l.countP isC11 = l.countP inClear + l.countP isG7 := by
   induction l with
@@ -154,11 +149,6 @@ structure SeqInv (n : Nat) (sh : Shared) (held : List Nat) : Prop where
   reserved : bitAt sh.words 0 = true
   count : countBelow (bitAt sh.words) (64 * n) = 1 + held.length
   inuse : sh.inuse = held.length
-
-theorem countBelow_all {p : Nat → Bool} (k : Nat) (h : ∀ x, x < k → p x = true) : countBelow p k = k := by
-  induction k with
-  | zero => rfl
-  | succ k ih => simp [countBelow, ih (fun x hx => h x (by omega)), h k (by omega)]
 
 theorem seqInv_get {n : Nat} (hn : 0 < n) {sh : Shared} {held : List Nat} (hI : SeqInv n sh held) :
     (held.length < 64 * n - 1 → ∃ id, (getStream sh).2 = some (.stream id true) ∧ 1 ≤ id ∧ id < 64 * n ∧
